@@ -1,0 +1,43 @@
+//go:build verif
+// +build verif
+
+package main
+
+import (
+	"encoding/hex"
+	"io/ioutil"
+	"os"
+	"strings"
+	"testing"
+)
+
+// TestVerifExpand runs the configuration-file interpolation (readConfigFile) on the hex-encoded texts
+// listed one per line in $VERIF_EXPAND_IN and writes the hex-encoded results to $VERIF_EXPAND_OUT.
+func TestVerifExpand(t *testing.T) {
+	in, out := os.Getenv("VERIF_EXPAND_IN"), os.Getenv("VERIF_EXPAND_OUT")
+	if in == "" || out == "" {
+		t.Skip("not driven by the verification harness")
+	}
+	data, err := ioutil.ReadFile(in)
+	if err != nil {
+		t.Fatal(err)
+	}
+	var res []string
+	for _, line := range strings.Split(strings.TrimSpace(string(data)), "\n") {
+		txt, err := hex.DecodeString(strings.TrimSpace(line))
+		if err != nil {
+			t.Fatal(err)
+		}
+		f, err := ioutil.TempFile("", "verifexpand")
+		if err != nil {
+			t.Fatal(err)
+		}
+		f.Write(txt)
+		f.Close()
+		res = append(res, hex.EncodeToString([]byte(readConfigFile(f.Name()))))
+		os.Remove(f.Name())
+	}
+	if err := ioutil.WriteFile(out, []byte(strings.Join(res, "\n")+"\n"), 0600); err != nil {
+		t.Fatal(err)
+	}
+}
